@@ -363,6 +363,14 @@ class _Eval:
         self.nodes = 0
         self.paths = 0
         self.site_by_bb = {s.bb: s for s in S.pan.sites(self.def_idx)} if self.def_idx in S.F.bodies else {}
+        # generic parameter name -> instance argument (for associated constants of generic helpers)
+        gn = S.F.defs[self.def_idx].get("generics") or []
+        ia = self.inst["a"]
+        self.gmap = {}
+        if gn and len(gn) <= len(ia):
+            for n_, a_ in zip(gn, ia):
+                if short(a_) != n_:
+                    self.gmap[n_] = short(a_)
 
     def run(self):
         env = {}
@@ -437,7 +445,7 @@ class _Eval:
             return ("K", ty, c["cv"])
         if "uneval" in c:
             d = F.defs[c["uneval"]]
-            return ("AC", F.fid(c["uneval"]), tuple(short(a) for a in c.get("args", [])))
+            return ("AC", F.fid(c["uneval"]), tuple(self._gsub(short(a)) for a in c.get("args", [])))
         if "param" in c:
             return ("CP", c["param"])
         if "v" in c:
@@ -447,6 +455,12 @@ class _Eval:
         if "tyconst" in c:
             return ("CP", c["tyconst"])
         return ("?", "const:" + ty)
+
+    def _gsub(self, a):
+        if not self.gmap:
+            return a
+        import re as _re
+        return _re.sub(r"\b([A-Z][A-Za-z0-9_]*)\b", lambda m: self.gmap.get(m.group(1), m.group(1)), a)
 
     def rvalue(self, rv, env, mem):
         r = rv["r"]
